@@ -27,9 +27,14 @@ const STARTUP_DEADLINE: Duration = Duration::from_secs(120);
 /// After this many full (solo) confirmations of a hang with the same (language, stage),
 /// further candidates from the tiny-string families are recorded without the 3 s re-run.
 const FULL_CONFIRMATIONS: u32 = 2;
-const POLL: Duration = Duration::from_millis(50);
+const POLL: Duration = Duration::from_millis(20);
+/// Limits used for parser/translator/binder probes of tiny strings once the same (language, stage) hang is confirmed.
+const FAST_LIMITS: Limits = Limits { cpu_ms: 60, wall: Duration::from_secs(5) };
+const SMALL_FAMILIES: [&str; 3] = ["tokens", "mutant", "edge"];
+/// "small input" for the purposes of the time/memory clause of the statement.
+const SMALL_INPUT_BYTES: usize = 4096;
 
-#[derive(Clone, Copy)]
+#[derive(Clone, Copy, PartialEq)]
 struct Limits {
     cpu_ms: u64,
     wall: Duration,
@@ -77,6 +82,7 @@ enum End {
 }
 
 struct ChildRun {
+    fast_limits_applied: bool,
     stuck_cpu_ms: u64,
     stuck_wall_ms: u64,
     lines: Vec<String>, // protocol lines other than S/C (P, D)
@@ -113,7 +119,7 @@ fn classify_death(status: std::process::ExitStatus, stderr: &str) -> (&'static s
 }
 
 /// Run one child; the limits apply to the time spent under one progress marker (S or C line).
-fn run_child(args: &[String], limits: Limits) -> ChildRun {
+fn run_child(args: &[String], limits_for: &dyn Fn(Option<&str>) -> Limits) -> ChildRun {
     let exe = std::env::current_exe().unwrap_or_else(|e| vcore::machinery_failure(&format!("current_exe: {e}")));
     let mut child: Child = Command::new(exe)
         .args(args)
@@ -148,7 +154,7 @@ fn run_child(args: &[String], limits: Limits) -> ChildRun {
         let _ = stderr.read_to_end(&mut buf);
         String::from_utf8_lossy(&buf).into_owned()
     });
-    let mut run = ChildRun { stuck_cpu_ms: 0, stuck_wall_ms: 0, lines: vec![], last_s: None, last_c: None, end: End::Finished };
+    let mut run = ChildRun { fast_limits_applied: false, stuck_cpu_ms: 0, stuck_wall_ms: 0, lines: vec![], last_s: None, last_c: None, end: End::Finished };
     let pid = child.id();
     let mut finished = false;
     let mut timed_out = false;
@@ -191,9 +197,11 @@ fn run_child(args: &[String], limits: Limits) -> ChildRun {
                 poll_seq = seq;
             }
             poll_cpu = cpu;
+            let limits = limits_for(run.last_c.as_deref());
             let over = if started { !finished && (stuck_cpu >= limits.cpu_ms || stuck_since.elapsed() >= limits.wall) } else { spawned.elapsed() >= STARTUP_DEADLINE };
             if over {
                 timed_out = true;
+                run.fast_limits_applied = limits == FAST_LIMITS;
                 run.stuck_cpu_ms = stuck_cpu;
                 run.stuck_wall_ms = stuck_since.elapsed().as_millis() as u64;
                 let _ = child.kill();
@@ -361,6 +369,7 @@ fn stage_of_marker(call: &str) -> &'static str {
 }
 
 struct SoloResult {
+    large_slow: u32,
     hang_stages: Vec<String>,
     violations: Vec<Violation>,
     deaths: u32,
@@ -380,7 +389,7 @@ static CASE_SEQ: AtomicUsize = AtomicUsize::new(0);
 fn solo(item: &inputs::Item, fe0_only_from_start: bool) -> SoloResult {
     let file = scratch().join(format!("case-{}.json", CASE_SEQ.fetch_add(1, Ordering::Relaxed)));
     std::fs::write(&file, json!({"lang": item.lang.name(), "query": item.query}).to_string()).unwrap_or_else(|e| vcore::machinery_failure(&format!("case file: {e}")));
-    let mut res = SoloResult { hang_stages: vec![], violations: vec![], deaths: 0, timeouts: 0, child_runs: 0, summary: None };
+    let mut res = SoloResult { large_slow: 0, hang_stages: vec![], violations: vec![], deaths: 0, timeouts: 0, child_runs: 0, summary: None };
     let mut seen: BTreeSet<String> = BTreeSet::new();
     let mut only_fe0 = fe0_only_from_start;
     let mut skip = 0usize;
@@ -394,7 +403,7 @@ fn solo(item: &inputs::Item, fe0_only_from_start: bool) -> SoloResult {
             args.push("--skip-fe".into());
             args.push(skip.to_string());
         }
-        let run = run_child(&args, SOLO_LIMITS);
+        let run = run_child(&args, &|_| SOLO_LIMITS);
         res.child_runs += 1;
         for l in &run.lines {
             if let Some(j) = l.strip_prefix("P ") {
@@ -420,6 +429,11 @@ fn solo(item: &inputs::Item, fe0_only_from_start: bool) -> SoloResult {
             End::Died { kind, detail } => {
                 res.deaths += 1;
                 (kind, detail.clone())
+            }
+            End::Timeout if item.query.len() > SMALL_INPUT_BYTES => {
+                // slow large input: reported in the evidence, not judged (see SMALL_INPUT_BYTES)
+                res.large_slow += 1;
+                break;
             }
             End::Timeout => {
                 res.timeouts += 1;
@@ -490,6 +504,7 @@ struct FamStats {
     panic_strings: u64,
     dead_strings: u64,
     timeout_strings: u64,
+    large_slow_strings: u64,
     max_us: u64,
 }
 impl FamStats {
@@ -504,30 +519,54 @@ impl FamStats {
         self.panic_strings += o.panic_strings;
         self.dead_strings += o.dead_strings;
         self.timeout_strings += o.timeout_strings;
+        self.large_slow_strings += o.large_slow_strings;
         self.max_us = self.max_us.max(o.max_us);
     }
     fn json(&self) -> Value {
         json!({"strings": self.strings, "accepted_by_parser": self.parsed, "translated": self.translated, "front_end_calls": self.calls, "returned_ok": self.ok, "returned_err": self.err,
-               "strings_with_an_ok_call": self.strings_ok, "strings_with_panic": self.panic_strings, "strings_killing_the_process": self.dead_strings, "strings_timing_out": self.timeout_strings, "slowest_call_us": self.max_us})
+               "strings_with_an_ok_call": self.strings_ok, "strings_with_panic": self.panic_strings, "strings_killing_the_process": self.dead_strings, "strings_timing_out": self.timeout_strings, "large_strings_given_up_as_slow": self.large_slow_strings, "slowest_call_us": self.max_us})
     }
 }
 
+/// At most this many violation records per signature and chunk are kept as objects (each carries its case);
+/// all occurrences are counted in `sig_counts`.
+const RECORDS_PER_SIG_PER_CHUNK: u64 = 3;
+
 struct Shard {
+    sig_counts: BTreeMap<String, u64>,
     rep: Report,
     stats: BTreeMap<(Lang, &'static str), FamStats>,
-    ladder: BTreeMap<(Lang, String), (u32, u32)>, // (max depth that returned, min depth that killed)
+    ladder: BTreeMap<(Lang, String), (u32, u32, u32)>, // (max depth that returned, min depth that killed the process, min depth that hung / was given up as slow)
     slow: Vec<(u64, usize)>,
+    large_slow: Vec<Value>,
     child_runs: u64,
     slow_rechecks: u64,
     fast_path_hangs: u64,
+    ladder_skipped: u64,
+}
+
+/// Limits for the call currently running in a batch child of segment (lang, family).
+fn batch_limits(lang: Lang, family: &str, marker: Option<&str>) -> Limits {
+    if family == "ladder" {
+        // large inputs may legitimately be slow; the batch run itself is the full-length observation
+        return SOLO_LIMITS;
+    }
+    if let Some(m) = marker {
+        if m.starts_with("probe:") && SMALL_FAMILIES.contains(&family) && confirmed_hangs(lang, stage_of_marker(m)) >= FULL_CONFIRMATIONS {
+            return FAST_LIMITS;
+        }
+    }
+    BATCH_LIMITS
 }
 
 fn process_chunk(space: &Space, tier: Tier, lo: usize, hi: usize) -> Shard {
-    let mut sh = Shard { rep: Report::new("C12", tier, "exploration"), stats: BTreeMap::new(), ladder: BTreeMap::new(), slow: vec![], child_runs: 0, slow_rechecks: 0, fast_path_hangs: 0 };
+    let mut sh = Shard { sig_counts: BTreeMap::new(), rep: Report::new("C12", tier, "exploration"), stats: BTreeMap::new(), ladder: BTreeMap::new(), slow: vec![], large_slow: vec![], child_runs: 0, slow_rechecks: 0, fast_path_hangs: 0, ladder_skipped: 0 };
+    let seg = space.seg_of(lo);
+    let (seg_lang, seg_family) = (seg.lang, seg.family);
     let mut cur = lo;
     while cur < hi {
         let args = vec!["--worker".to_string(), tier.as_str().to_string(), cur.to_string(), hi.to_string()];
-        let run = run_child(&args, BATCH_LIMITS);
+        let run = run_child(&args, &|m| batch_limits(seg_lang, seg_family, m));
         sh.child_runs += 1;
         // completed strings
         let mut panics: BTreeMap<usize, Vec<Value>> = BTreeMap::new();
@@ -544,35 +583,12 @@ fn process_chunk(space: &Space, tier: Tier, lo: usize, hi: usize) -> Shard {
                 }
                 let idx = n[0] as usize;
                 let item = space.get(idx);
-                let st = sh.stats.entry((item.lang, item.family)).or_default();
-                st.strings += 1;
-                st.parsed += n[1];
-                st.translated += n[2];
-                st.calls += n[3];
-                st.ok += n[4];
-                st.err += n[5];
-                st.max_us = st.max_us.max(n[6]);
-                if n[4] > 0 {
-                    st.strings_ok += 1;
-                }
-                sh.rep.evaluations += n[3] + 1; // front-end calls + the parser probe
-                if n[1] == 1 {
-                    sh.rep.nontrivial(&(item.lang.name(), &item.query));
-                }
-                if n[6] > 200_000 {
-                    sh.slow.push((n[6], idx));
-                }
-                if (idx % 9973 == 7 && n[1] == 1) || (item.family == "corpus" && idx % 17 == 3) {
-                    sh.rep.sample(json!({"lang": item.lang.name(), "family": item.family, "query": item.query, "accepted_by_parser": n[1] == 1, "front_end_calls": n[3], "returned_ok": n[4], "returned_err": n[5]}));
-                }
+                record_done(&mut sh, &item, &n, idx);
                 if let Some(ps) = panics.remove(&idx) {
-                    st.panic_strings += 1;
+                    sh.stats.entry((item.lang, item.family)).or_default().panic_strings += 1;
                     for v in ps {
-                        sh.rep.violation(panic_violation(&item, v["call"].as_str().unwrap_or("?"), v["stage"].as_str().unwrap_or("?"), v["msg"].as_str().unwrap_or(""), v["loc"].as_str().unwrap_or("?")));
+                        sh.push_violation(panic_violation(&item, v["call"].as_str().unwrap_or("?"), v["stage"].as_str().unwrap_or("?"), v["msg"].as_str().unwrap_or(""), v["loc"].as_str().unwrap_or("?")));
                     }
-                } else if item.family == "ladder" {
-                    let e = sh.ladder.entry((item.lang, item.shape.clone())).or_insert((0, u32::MAX));
-                    e.0 = e.0.max(item.depth);
                 }
                 done_upto = done_upto.max(idx + 1);
             }
@@ -590,81 +606,133 @@ fn process_chunk(space: &Space, tier: Tier, lo: usize, hi: usize) -> Shard {
                     vcore::machinery_failure(&format!("worker died between strings ({k} already done): {:?}", run.end));
                 }
                 let item = space.get(k);
-                // fast path for hang candidates among the tiny strings once the same (language, stage) has been fully confirmed
-                if let (End::Timeout, Some(call)) = (&run.end, run.last_c.as_deref()) {
+                let is_timeout = matches!(run.end, End::Timeout);
+                let mut bad = true; // did string k really kill / hang the process?
+                let mut died = false;
+                if is_timeout && item.query.len() > SMALL_INPUT_BYTES {
+                    // the statement bounds time and memory "on small input" only: a slow large input is reported, not judged
+                    let call = run.last_c.clone().unwrap_or_default();
+                    sh.large_slow.push(json!({"lang": item.lang.name(), "shape": item.shape, "depth": item.depth, "bytes": item.query.len(), "call": call, "cpu_ms_before_giving_up": run.stuck_cpu_ms}));
+                    let st = sh.stats.entry((item.lang, item.family)).or_default();
+                    st.strings += 1;
+                    st.large_slow_strings += 1;
+                    sh.rep.evaluations += 1;
+                } else if let (true, Some(call)) = (is_timeout && run.fast_limits_applied, run.last_c.as_deref()) {
+                    // fast path: same language+stage already confirmed in full FULL_CONFIRMATIONS times
                     let stage = stage_of_marker(call);
-                    if matches!(item.family, "tokens" | "mutant") && confirmed_hangs(item.lang, stage) >= FULL_CONFIRMATIONS {
-                        let detail = format!(
-                            "hang candidate: {} ms CPU / {} ms wall inside this one call in a batch (normal: < 20 ms); not re-run alone because {} hangs with the same language+stage were already confirmed with {} ms CPU",
-                            run.stuck_cpu_ms, run.stuck_wall_ms, FULL_CONFIRMATIONS, SOLO_LIMITS.cpu_ms
-                        );
-                        sh.rep.violation(death_violation(&item, call, stage, "timeout", &detail));
-                        sh.rep.evaluations += 1;
-                        sh.fast_path_hangs += 1;
-                        let st = sh.stats.entry((item.lang, item.family)).or_default();
-                        st.strings += 1;
-                        st.timeout_strings += 1;
-                        cur = k + 1;
-                        continue;
-                    }
-                }
-                // string k is the suspect: re-run it alone, call by call
-                let sr = solo(&item, false);
-                for h in &sr.hang_stages {
-                    note_confirmed_hang(item.lang, h);
-                }
-                sh.child_runs += sr.child_runs as u64;
-                let st = sh.stats.entry((item.lang, item.family)).or_default();
-                st.strings += 1;
-                if sr.deaths > 0 {
-                    st.dead_strings += 1;
-                }
-                if sr.timeouts > 0 {
+                    let detail = format!(
+                        "hang candidate: {} ms CPU / {} ms wall inside this one call in a batch (normal: < 1 ms); not re-run alone because {} hangs with the same language+stage were already confirmed with {} ms CPU each",
+                        run.stuck_cpu_ms, run.stuck_wall_ms, FULL_CONFIRMATIONS, SOLO_LIMITS.cpu_ms
+                    );
+                    sh.push_violation(death_violation(&item, call, stage, "timeout", &detail));
+                    sh.rep.evaluations += 1;
+                    sh.fast_path_hangs += 1;
+                    let st = sh.stats.entry((item.lang, item.family)).or_default();
+                    st.strings += 1;
                     st.timeout_strings += 1;
-                }
-                if let Some(n) = &sr.summary {
-                    if n.len() == 7 {
-                        st.parsed += n[1];
-                        st.translated += n[2];
-                        st.calls += n[3];
-                        st.ok += n[4];
-                        st.err += n[5];
-                        st.max_us = st.max_us.max(n[6]);
-                        sh.rep.evaluations += n[3] + 1;
-                        if n[1] == 1 {
-                            sh.rep.nontrivial(&(item.lang.name(), &item.query));
-                        }
-                    }
-                }
-                if sr.deaths == 0 && sr.timeouts == 0 {
-                    // The batch child died/stalled here but the string alone returns in time.
-                    match run.end {
-                        End::Timeout => sh.slow_rechecks += 1, // machine load; the 30 s solo verdict counts
-                        _ => {
-                            let End::Died { kind, detail } = &run.end else { unreachable!() };
-                            let mut v = death_violation(&item, "batch", "unknown", kind, detail);
-                            v.sig.insert("solo".into(), "not-reproduced".into());
-                            sh.rep.violation(v);
-                        }
-                    }
                 } else {
-                    sh.rep.evaluations += (sr.deaths + sr.timeouts) as u64;
-                    if item.family == "ladder" {
-                        let e = sh.ladder.entry((item.lang, item.shape.clone())).or_insert((0, u32::MAX));
-                        e.1 = e.1.min(item.depth);
+                    // string k is the suspect: re-run it alone, call by call
+                    let sr = solo(&item, false);
+                    for h in &sr.hang_stages {
+                        note_confirmed_hang(item.lang, h);
+                    }
+                    sh.child_runs += sr.child_runs as u64;
+                    if let Some(n) = &sr.summary {
+                        if n.len() == 7 {
+                            record_done(&mut sh, &item, n, k);
+                        }
+                    } else {
+                        sh.stats.entry((item.lang, item.family)).or_default().strings += 1;
+                    }
+                    let st = sh.stats.entry((item.lang, item.family)).or_default();
+                    if sr.deaths > 0 {
+                        st.dead_strings += 1;
+                        died = true;
+                    }
+                    if sr.large_slow > 0 {
+                        st.large_slow_strings += 1;
+                        sh.large_slow.push(json!({"lang": item.lang.name(), "shape": item.shape, "depth": item.depth, "bytes": item.query.len(), "call": "solo", "cpu_ms_before_giving_up": SOLO_LIMITS.cpu_ms}));
+                    }
+                    if sr.timeouts > 0 {
+                        st.timeout_strings += 1;
+                    }
+                    if sr.deaths == 0 && sr.timeouts == 0 && sr.large_slow == 0 {
+                        bad = false;
+                        if !sr.violations.is_empty() {
+                            st.panic_strings += 1;
+                        }
+                        // The batch child died/stalled here but the string alone returns in time.
+                        match &run.end {
+                            End::Died { kind, detail } => {
+                                let mut v = death_violation(&item, "batch", "unknown", kind, detail);
+                                v.sig.insert("solo".into(), "not-reproduced".into());
+                                sh.push_violation(v);
+                            }
+                            _ => sh.slow_rechecks += 1,
+                        }
+                    } else {
+                        sh.rep.evaluations += (sr.deaths + sr.timeouts) as u64;
+                    }
+                    for v in sr.violations {
+                        sh.push_violation(v);
                     }
                 }
-                if !sr.violations.is_empty() && sr.deaths == 0 && sr.timeouts == 0 {
-                    st.panic_strings += 1;
-                }
-                for v in sr.violations {
-                    sh.rep.violation(v);
+                if bad && item.family == "ladder" {
+                    let e = sh.ladder.entry((item.lang, item.shape.clone())).or_insert((0, u32::MAX, u32::MAX));
+                    if died {
+                        e.1 = e.1.min(item.depth);
+                    } else {
+                        e.2 = e.2.min(item.depth);
+                    }
                 }
                 cur = k + 1;
+                if bad && item.family == "ladder" && tier == Tier::Quick {
+                    // quick tier: a ladder stops at its first crash or hang (one chunk = one ladder); thorough runs every depth
+                    sh.ladder_skipped += (hi - cur) as u64;
+                    cur = hi;
+                }
             }
         }
     }
     sh
+}
+
+impl Shard {
+    fn push_violation(&mut self, v: Violation) {
+        let c = self.sig_counts.entry(v.sig_string()).or_insert(0);
+        *c += 1;
+        if *c <= RECORDS_PER_SIG_PER_CHUNK {
+            self.rep.violation(v);
+        }
+    }
+}
+
+fn record_done(sh: &mut Shard, item: &inputs::Item, n: &[u64], idx: usize) {
+    let st = sh.stats.entry((item.lang, item.family)).or_default();
+    st.strings += 1;
+    st.parsed += n[1];
+    st.translated += n[2];
+    st.calls += n[3];
+    st.ok += n[4];
+    st.err += n[5];
+    st.max_us = st.max_us.max(n[6]);
+    if n[4] > 0 {
+        st.strings_ok += 1;
+    }
+    sh.rep.evaluations += n[3] + 1; // front-end calls + the parser probe
+    if n[1] == 1 {
+        sh.rep.nontrivial(&(item.lang.name(), &item.query));
+    }
+    if n[6] > 200_000 {
+        sh.slow.push((n[6], idx));
+    }
+    if (idx % 9973 == 7 && n[1] == 1) || (item.family == "corpus" && idx % 17 == 3) {
+        sh.rep.sample(json!({"lang": item.lang.name(), "family": item.family, "query": item.query, "accepted_by_parser": n[1] == 1, "front_end_calls": n[3], "returned_ok": n[4], "returned_err": n[5]}));
+    }
+    if item.family == "ladder" {
+        let e = sh.ladder.entry((item.lang, item.shape.clone())).or_insert((0, u32::MAX, u32::MAX));
+        e.0 = e.0.max(item.depth);
+    }
 }
 
 // ---------------------------------------------------------------------------
@@ -680,7 +748,7 @@ fn bisect_ladder(lang: Lang, shape: &str, ok: u32, bad: u32) -> (u32, u32, u32) 
         let item = inputs::Item { lang, family: "ladder", shape: shape.to_string(), depth: mid, query: inputs::ladder_string(&ld, mid as usize) };
         let sr = solo(&item, true);
         runs += sr.child_runs;
-        if sr.deaths > 0 || sr.timeouts > 0 {
+        if sr.deaths > 0 || sr.timeouts > 0 || sr.large_slow > 0 {
             hi = mid;
         } else {
             lo = mid;
@@ -789,8 +857,10 @@ fn run(args: vcore::Args) -> i32 {
         }
         let step = match s.family {
             "tokens" => 4_000,
-            "ladder" => 6,
-            _ => 400,
+            "ladder" => inputs::ladder_depths(space.ladder_max_log2).len(), // one ladder per chunk
+            "edge" | "corpus" => 40,
+            "arith" => 250,
+            _ => 300,
         };
         let mut a = s.start;
         while a < s.start + s.count {
@@ -799,7 +869,11 @@ fn run(args: vcore::Args) -> i32 {
             a = b;
         }
     }
-    let filtered = only_family.is_some() || only_lang.is_some();
+    let only_range: Option<(usize, usize)> = args.rest.iter().position(|a| a == "--range").and_then(|i| Some((args.rest.get(i + 1)?.parse().ok()?, args.rest.get(i + 2)?.parse().ok()?)));
+    if let Some((a, b)) = only_range {
+        chunks.retain(|c| c.0 >= a && c.1 <= b);
+    }
+    let filtered = only_family.is_some() || only_lang.is_some() || only_range.is_some();
     let workers = vcore::cores();
     let timing = std::env::var("C12_TIMING").is_ok();
     let shards = vcore::par_map(&chunks, workers, |_, &(lo, hi)| {
@@ -813,29 +887,38 @@ fn run(args: vcore::Args) -> i32 {
     });
 
     let mut stats: BTreeMap<(Lang, &'static str), FamStats> = BTreeMap::new();
-    let mut ladder: BTreeMap<(Lang, String), (u32, u32)> = BTreeMap::new();
+    let mut ladder: BTreeMap<(Lang, String), (u32, u32, u32)> = BTreeMap::new();
     let mut slow: Vec<(u64, usize)> = vec![];
+    let mut large_slow: Vec<Value> = vec![];
+    let mut ladder_skipped = 0u64;
     let mut child_runs = 0u64;
     let mut slow_rechecks = 0u64;
     let mut fast_path_hangs = 0u64;
+    let mut sig_counts: BTreeMap<String, u64> = BTreeMap::new();
     for sh in shards {
         fast_path_hangs += sh.fast_path_hangs;
+        for (k, v) in sh.sig_counts {
+            *sig_counts.entry(k).or_insert(0) += v;
+        }
         for (k, v) in sh.stats {
             stats.entry(k).or_default().add(&v);
         }
         for (k, v) in sh.ladder {
-            let e = ladder.entry(k).or_insert((0, u32::MAX));
+            let e = ladder.entry(k).or_insert((0, u32::MAX, u32::MAX));
             e.0 = e.0.max(v.0);
             e.1 = e.1.min(v.1);
+            e.2 = e.2.min(v.2);
         }
+        large_slow.extend(sh.large_slow);
+        ladder_skipped += sh.ladder_skipped;
         slow.extend(sh.slow);
         child_runs += sh.child_runs;
         slow_rechecks += sh.slow_rechecks;
         rep.merge(sh.rep);
     }
 
-    // ladder summary + bisection of the crash threshold
-    let crashing: Vec<((Lang, String), (u32, u32))> = ladder.iter().filter(|(_, v)| v.1 != u32::MAX).map(|(k, v)| (k.clone(), *v)).collect();
+    // ladder summary; thorough tier bisects the crash threshold between the last good and the first killing depth
+    let crashing: Vec<((Lang, String), (u32, u32, u32))> = ladder.iter().filter(|(_, v)| v.1 != u32::MAX && tier == Tier::Thorough).map(|(k, v)| (k.clone(), *v)).collect();
     let bis = vcore::par_map(&crashing, workers, |_, (k, v)| {
         // depths below the first killing depth all returned (doubling ladder), so v.1/2 is the last known good one
         let ok = if v.1 > 1 { v.1 / 2 } else { 0 };
@@ -843,24 +926,33 @@ fn run(args: vcore::Args) -> i32 {
     });
     let mut ladder_json = vec![];
     let mut per_lang_min_crash: BTreeMap<&'static str, (u32, String)> = BTreeMap::new();
-    for ((lang, shape), (max_ok, min_bad)) in &ladder {
+    for ((lang, shape), (max_ok, min_dead, min_hang)) in &ladder {
         let mut o = json!({"lang": lang.name(), "shape": shape, "max_depth_tested_that_returned": max_ok});
-        if *min_bad != u32::MAX {
+        if *min_hang != u32::MAX {
+            o["first_depth_that_hung_or_was_given_up_as_slow"] = json!(min_hang);
+        }
+        if *min_dead != u32::MAX {
+            o["first_tested_depth_that_killed_the_process"] = json!(min_dead);
+            let mut hi = *min_dead;
             if let Some(p) = crashing.iter().position(|(k, _)| k.0 == *lang && &k.1 == shape) {
-                let (lo, hi, runs) = bis[p];
+                let (lo, h, runs) = bis[p];
                 child_runs += runs as u64;
                 o["max_safe_depth"] = json!(lo);
-                o["min_killing_depth"] = json!(hi);
-                let e = per_lang_min_crash.entry(lang.name()).or_insert((u32::MAX, String::new()));
-                if hi < e.0 {
-                    *e = (hi, shape.clone());
-                }
+                o["min_killing_depth"] = json!(h);
+                hi = h;
+            }
+            let e = per_lang_min_crash.entry(lang.name()).or_insert((u32::MAX, String::new()));
+            if hi < e.0 {
+                *e = (hi, shape.clone());
             }
         }
         ladder_json.push(o);
     }
     rep.set("ladders", json!(ladder_json));
-    rep.set("min_killing_depth_per_language", json!(per_lang_min_crash.iter().map(|(k, v)| (k.to_string(), json!({"depth": v.0, "shape": v.1}))).collect::<serde_json::Map<String, Value>>()));
+    rep.set("smallest_killing_depth_per_language", json!(per_lang_min_crash.iter().map(|(k, v)| (k.to_string(), json!({"depth": v.0, "shape": v.1, "exact": tier == Tier::Thorough}))).collect::<serde_json::Map<String, Value>>()));
+    large_slow.sort_by_key(|v| v.to_string());
+    rep.set("slow_large_inputs_not_judged", json!(large_slow));
+    rep.set("ladder_strings_skipped_after_first_crash_quick_tier", json!(ladder_skipped));
 
     let mut fam_json = serde_json::Map::new();
     let mut totals: BTreeMap<&'static str, FamStats> = BTreeMap::new();
@@ -880,9 +972,12 @@ fn run(args: vcore::Args) -> i32 {
         json!({
             "token_alphabet_sizes": inputs::LANGS.iter().map(|l| (l.name().to_string(), json!(inputs::alphabet(*l).len()))).collect::<serde_json::Map<String, Value>>(),
             "max_tokens": space.max_tokens,
+            "corpus_queries_mutated_per_language": if space.mutated_corpus_queries == usize::MAX { json!("all") } else { json!(space.mutated_corpus_queries) },
             "ladder_depths": format!("1,2,4,...,2^{}", space.ladder_max_log2),
             "strings_total": space.total,
             "hang_candidate_limits_per_call_in_batch": {"cpu_ms": BATCH_LIMITS.cpu_ms, "wall_s": BATCH_LIMITS.wall.as_secs()},
+            "fast_path_limits_for_probes_of_small_families_after_full_confirmations": {"cpu_ms": FAST_LIMITS.cpu_ms, "families": SMALL_FAMILIES},
+            "small_input_bytes_for_timeout_verdicts": SMALL_INPUT_BYTES,
             "timeout_verdict_limits_per_call_alone": {"cpu_ms": SOLO_LIMITS.cpu_ms, "wall_s": SOLO_LIMITS.wall.as_secs()},
             "full_confirmations_per_language_and_stage_before_fast_path": FULL_CONFIRMATIONS,
             "case_thread_stack_bytes": worker::STACK_BYTES,
@@ -897,7 +992,53 @@ fn run(args: vcore::Args) -> i32 {
     rep.set("hang_candidates_recorded_without_solo_rerun", json!(fast_path_hangs));
     rep.assumptions.push("A panic is observed through catch_unwind in the child; the C binding (crates/bindings/c) forwards to the same entry points without an unwind guard and is covered by implication only.".into());
     rep.assumptions.push("Stack-overflow thresholds are those of this build profile (opt-level 2, debug assertions, overflow checks) on an 8 MiB thread stack; other profiles shift the numbers, not the existence of unbounded recursion.".into());
-    rep.assumptions.push("A timeout verdict means: re-run alone, one call consumed 3 s of CPU (or 30 s wall) without returning; CPU time, not wall time, is the primary clock so machine load cannot produce it. Exception, stated per violation: for strings of the families tokens/mutant (<= ~200 bytes) a call that burnt 0.2 s CPU is recorded without the 3 s re-run once two hangs of the same language+stage were confirmed in full.".into());
+    rep.assumptions.push("A timeout verdict means: re-run alone, one call consumed 3 s of CPU (or 30 s wall) without returning; CPU time, not wall time, is the primary clock so machine load cannot produce it. Exception, stated per violation: for strings of the families tokens/mutant/edge (<= ~300 bytes) a parser/translator/binder call that burnt 60 ms CPU (normal: microseconds) is recorded without the 3 s re-run once two hangs of the same language+stage were confirmed in full.".into());
+    // One representative per panic signature is re-run alone (fresh databases for every call) so that every
+    // replay file reproduces by construction; batch workers reuse a database while its contents are unchanged.
+    let mut by_sig: BTreeMap<String, Vec<usize>> = BTreeMap::new();
+    for (i, v) in rep.violations.iter().enumerate() {
+        if v.sig.get("kind").map(|k| k == "panic").unwrap_or(false) {
+            by_sig.entry(v.sig_string()).or_default().push(i);
+        }
+    }
+    let groups: Vec<(String, Vec<usize>)> = by_sig.into_iter().collect();
+    let confirmed: Vec<Option<usize>> = vcore::par_map(&groups, workers, |_, (sig, idxs)| {
+        for &i in idxs.iter().take(3) {
+            let c = &rep.violations[i].case;
+            let (Some(lang), Some(q)) = (c["lang"].as_str().and_then(Lang::from_name), c["query"].as_str()) else { continue };
+            let item = inputs::Item { lang, family: "replay", shape: "-".into(), depth: 0, query: q.to_string() };
+            let sr = solo(&item, false);
+            if sr.violations.iter().any(|v| &v.sig_string() == sig) {
+                return Some(i);
+            }
+        }
+        None
+    });
+    let mut front: Vec<usize> = vec![];
+    let mut unconfirmed = 0u64;
+    for ((_, idxs), c) in groups.iter().zip(&confirmed) {
+        match c {
+            Some(i) => front.push(*i),
+            None => {
+                unconfirmed += 1;
+                for &i in idxs {
+                    rep.violations[i].sig.insert("solo".into(), "not-reproduced".into());
+                }
+            }
+        }
+    }
+    let fset: BTreeSet<usize> = front.iter().copied().collect();
+    let all = std::mem::take(&mut rep.violations);
+    let mut rest = vec![];
+    let mut head = vec![];
+    for (i, v) in all.into_iter().enumerate() {
+        if fset.contains(&i) { head.push(v) } else { rest.push(v) }
+    }
+    head.extend(rest);
+    rep.violations = head;
+    rep.set("panic_signatures_confirmed_alone", json!(groups.len() as u64 - unconfirmed));
+    rep.set("panic_signatures_not_reproduced_alone", json!(unconfirmed));
+    rep.set("occurrences_per_signature", json!(sig_counts));
     if filtered {
         rep.exhaustive = false;
     }
